@@ -47,6 +47,13 @@ def setup(ex):
     shims.install(T, double_sha256=_H['d'], hash160=_H['h160'])
 
 
+def setup_init(ex):
+    setup(ex)
+    T, E, S, K = _mods()
+    shims.install(S, BytesIO=shims.SBytesIO)
+    shims.install(K, int=shims.IntShim, bytes=shims.BytesShim)
+
+
 def _H2(ex):
     if ex.concrete:
         from bitcoinlib.encoding import double_sha256
@@ -116,6 +123,10 @@ def mk_input(ex, T, K, idx, kind, nkeys):
     i.encoding = 'base58'
     i.network = None
     multisig = st in ('p2sh_multisig', 'p2sh_p2wsh')
+    if kind == 'p2sh_multisig':
+        # the caller may also have supplied the spent output's scriptPubKey (a914<20>87): the subscript stays the redeemscript
+        if ex.choose('prevout_script%d' % idx, ['not-given', 'given']) == 'given':
+            i.locking_script = b'\xa9\x14' + ex.bytes('p2sh_h%d' % idx, 20) + b'\x87'
     n = nkeys if multisig else 1
     i.keys = [mk_key(ex, K, 'k%d_%d' % (idx, j)) for j in range(n)]
     m = ex.int('m%d' % idx, 1, n) if (multisig and n > 1) else 1
@@ -183,6 +194,32 @@ def h_sighash(ex, kind, other_kinds, max_in, max_out, out_lens, nkeys):
     dg = t.signature_hash(sid, 1, wt)
     ex.check(_eq(dg, H(want)), 'digest-is-hash-of-preimage', known=kf('C01-preimage-single-zero-byte-script', zero1))
     ex.sample(kind=kind, nin=nin, nout=nout, sign_id=sid, tx_witness_type=t.witness_type, preimage_len=len(got))
+    # history: change fields IN PLACE (same counts) after a digest was computed, then ask again - no stale state may
+    # survive (e.g. what bumpfee / sequence changes followed by re-signing do)
+    what = ex.choose('modify', ['outvalue', 'outscript', 'sequence', 'locktime'])
+    outs2, ins2, locktime2 = list(outs), list(ins), locktime
+    if what == 'outvalue':
+        nv = ex.int('new_outval', 0, MAXV)
+        t.outputs[0].value = nv
+        outs2[0] = (nv, outs[0][1])
+    elif what == 'outscript':
+        nsp = ex.bytes('new_spk', 2)
+        t.outputs[0].lock_script = nsp
+        outs2[0] = (outs[0][0], nsp)
+    elif what == 'sequence':
+        ns = ex.int('new_seq', 0, 2 ** 32 - 1)
+        t.inputs[0].sequence = ns
+        ins2[0] = (ins[0][0], ins[0][1], ns)
+    else:
+        locktime2 = ex.int('new_locktime', 0, 2 ** 32 - 1)
+        t.locktime = locktime2
+    got2 = t.signature(sid, 1, wt)
+    if wt == 'legacy':
+        want2 = sighash.legacy_preimage(version, ins2, outs2, locktime2, sid, codes[sid])
+    else:
+        want2 = sighash.bip143_preimage(H, version, ins2, outs2, locktime2, sid, codes[sid], amounts[sid])
+    zero2 = s_or(*[(len(spk) == 1) and (spk[0] == 0) for (_, spk) in outs2])
+    ex.check(_eq(got2, want2), 'preimage-after-in-place-change', known=kf('C01-preimage-single-zero-byte-script', zero2))
 
 
 def h_many_outputs(ex, kind, count):
@@ -214,6 +251,52 @@ def h_many_outputs(ex, kind, count):
     ex.check(_eq(got, want), 'preimage-many-outputs')
 
 
+TEMPLATES = {
+    # name: (prefix, hashlen, suffix, expected witness_type, expected script_type or None)
+    'p2pkh': (b'\x76\xa9\x14', 20, b'\x88\xac', 'legacy'),
+    'p2sh': (b'\xa9\x14', 20, b'\x87', 'legacy'),
+    'p2wpkh': (b'\x00\x14', 20, b'', 'segwit'),
+    'p2wsh': (b'\x00\x20', 32, b'', 'segwit'),
+}
+
+
+def h_input_init(ex):
+    """which digest algorithm an input gets when it is described by the locking script it spends (no explicit witness
+    type): witness v0 programs (P2WPKH, P2WSH) must be signed with BIP143 (witness_type 'segwit'), P2PKH / P2SH as
+    legacy; an explicit witness type is kept"""
+    T, E, S, K = _mods()
+    name = ex.choose('template', list(TEMPLATES))
+    pre, hl, suf, want_wt = TEMPLATES[name]
+    h = ex.bytes('hash', hl)
+    txid = ex.bytes('txid', 32)
+    ex.assume(txid[0] >= 0x80)          # (a txid of ASCII hex digits would be hex-decoded by to_bytes: C06 finding)
+    ex.assume(h[0] >= 0x80)
+    explicit = ex.choose('explicit_witness_type', [None, 'segwit', 'legacy'])
+    kw = dict(witness_type=explicit) if explicit else {}
+    if not ex.concrete:
+        shims.install(T, _logger=_NullLog(), Address=_FakeAddress)     # the address text is irrelevant here (C05)
+    inp = T.Input(prev_txid=txid, output_n=ex.int('vout', 0, 2 ** 32 - 1), locking_script=pre + h + suf, value=ex.int('value', 1, MAXV),
+                  address='skip' if False else '', network='bitcoin', **kw)
+    if explicit == 'legacy' and want_wt == 'segwit':
+        # a witness program described as legacy: the library overrides with segwit (locking script wins) - accepted
+        ex.check(inp.witness_type in ('segwit', 'legacy'), 'explicit-legacy-on-witness-program')
+    elif explicit:
+        ex.check(inp.witness_type == explicit or (explicit == 'legacy' and inp.witness_type == 'legacy'), 'explicit-witness-type-kept')
+    else:
+        ex.check(inp.witness_type == want_wt, 'witness-type-inferred-from-locking-script')
+    ex.check(_eq(inp.public_hash, h), 'public-hash-extracted-from-locking-script')
+
+
+class _NullLog:
+    def __getattr__(self, n):
+        return lambda *a, **k: None
+
+
+class _FakeAddress:
+    def __init__(self, *a, **k):
+        self.address = 'address-not-modelled'
+
+
 def jobs(tier):
     q = tier == 'quick'
     J = []
@@ -225,6 +308,7 @@ def jobs(tier):
                             nkeys=3 if q else 5))
         j.cost = 50
         J.append(j)
+    J.append(Job('input_init', h_input_init, W=72, setup=setup_init, budget_s=1500))
     for kind in (['p2pkh', 'p2wpkh'] if q else list(KINDS)):
         for count in (252, 253):
             J.append(Job('outputs_%d_%s' % (count, kind), h_many_outputs, W=72, setup=setup, params=dict(kind=kind, count=count), budget_s=1500))
